@@ -19,13 +19,28 @@ func init() {
 		Title: "Commands survive encoding, optional compression and decoding unchanged",
 		Explanation: "C29.a TABLE: for every command type built in package store (a store of Command.Type = K) the message type and marshal function on the writer side pair with the unmarshal function and target type in CommandProcessor.Process's case K (EXECUTE/QUERY/EXECUTE_QUERY ↔ tryCompress/UnmarshalSubCommand on the same request type; LOAD ↔ MarshalLoadRequest/UnmarshalLoadRequest; NOOP). " +
 			"C29.b DOM/SSA identity: at each builder the SubCommand bytes and the Compressed flag are results #0 and #1 of the same tryCompress call, and tryCompress returns the marshaler's results unchanged. " +
-			"C29.c DECIDE: RequestMarshaler.Marshal is interpreted for all valuations of {batch size vs threshold, any statement vs size threshold, marshal ok, gzip ok, gzip size vs raw size (<,=,>), force}: the returned bytes are the gzip output exactly when the returned flag is true, and the flag is true iff compression was attempted and (gzip is strictly smaller or compression is forced). UnmarshalSubCommand decompresses iff Command.Compressed.",
+			"C29.c DECIDE: RequestMarshaler.Marshal is interpreted for all valuations of {batch size vs threshold, any statement vs size threshold, marshal ok, gzip ok, gzip size vs raw size (<,=,>), force}: the returned bytes are the gzip output exactly when the returned flag is true, and the flag is true iff compression was attempted and (gzip is strictly smaller or compression is forced). UnmarshalSubCommand decompresses iff Command.Compressed. " +
+			"C29.d OWN: no function of the module (outside command/chunking, which is C28.d) returns a slice that aliases an object it puts back into a sync.Pool (a pooled gzip buffer whose bytes are handed to the log would be rewritten by the next encoding).",
 		NotCovered: []string{"protobuf and gzip round-trip themselves (trusted libraries)", "equality of the decoded request with the original over all inputs (a value property)"},
 		Run:        runC29,
 	})
 }
 
 func runC29(c *core.Ctx) {
+	// C29.d OWN: encoded bytes never share memory with a pooled encoder / buffer that was put back
+	{
+		var fns []*ssa.Function
+		for _, f := range moduleFuncs(c) {
+			if f.Pkg != nil && !strings.HasSuffix(f.Pkg.Pkg.Path(), "/command/chunking") {
+				fns = append(fns, f)
+			}
+		}
+		n := checkPoolOwnership(c, "C29.d", fns, "an encoded command handed to the log is rewritten by the next encoding: the entry no longer decodes, or decodes to a different request")
+		c.Count("functions outside chunking that return pooled objects to a pool", n)
+		if n == 0 {
+			c.OK("C29.d", "OWN", "module:pooled-memory-escapes", "", "no function outside command/chunking uses a sync.Pool with Put today; the rule's positive control is the fixture PoolEscape (self-test)")
+		}
+	}
 	c29marshal(c)
 	c29unmarshalSub(c)
 	c29table(c)
